@@ -2,8 +2,11 @@
    list, prod, unit, sumbool map to OCaml's own; N, Z, positive, nat stay as
    extracted inductives so 2^64 arithmetic is exact. No Extract Constant. *)
 From Coq Require Import ExtrOcamlBasic.
-From V Require Import Base.Prelude Base.Prog Meta.Model Flate.Spec.
+From V Require Import Base.Prelude Base.Prog Meta.Model Flate.Spec XFlate.Index XFlate.Writer XFlate.Reader.
 Extraction Language OCaml.
 Extraction "model.ml"
   meta_encode meta_decode reverse_search computeHuffLen encode_block
-  inflate.
+  inflate
+  XFlate.Writer.new_writer XFlate.Writer.wrun XFlate.Writer.w_sink XFlate.Writer.w_in XFlate.Writer.w_out
+  XFlate.Reader.open_reader XFlate.Reader.rrun XFlate.Reader.r_log XFlate.Reader.r_recs
+  crc32 put_uvarint uvarint search get_records.
